@@ -6,6 +6,8 @@
 (*   list    - a listing call of the reconciler returned (= snapshot)          *)
 (*   replace - the scripted store replaced the current object of a key         *)
 (*   call    - a mutating call the reconciler made, with the store's answer    *)
+(*             (judge = FALSE: a call the driver made itself to probe the real   *)
+(*             store's guard semantics; only compared with the model store)     *)
 (* Every call that takes effect is judged with Allowed (Lifecycle.tla) in the  *)
 (* model state it hits; the scripted store's answers are checked against the   *)
 (* model store (Apply) as well.                                                *)
@@ -71,7 +73,7 @@ Step(w, e, i, R) ==
                    \/ (c.key \in w.touched /\ DueOKSP(w.S, w.P, R, w.now, c) /\ KeepsOKSP(w.S, w.P, R, w.now, c))
              tag == Explain(w.S, w.P, R, w.now, c)
              v == IF ~okStore THEN "storemodel"
-                  ELSE IF e.res # "ok" \/ ~a.eff THEN "ok"
+                  ELSE IF ~e.judge \/ e.res # "ok" \/ ~a.eff THEN "ok"
                   ELSE IF ok THEN "ok"
                   ELSE IF tag # "" THEN "finding" ELSE "mismatch" IN
          [w EXCEPT !.S = a.S, !.nuid = w.nuid + 1,
